@@ -203,6 +203,11 @@ def _len_guard(facts, base, need):
             e = ast.parse(t, mode="eval").body
         except SyntaxError:
             continue
+        if isinstance(e, ast.Compare) and len(e.ops) == 1 and isinstance(e.left, ast.Constant) and q.is_call(e.comparators[0], "len"):
+            # 2 <= len(x)  ->  len(x) >= 2
+            flip = {ast.Lt: ast.Gt, ast.LtE: ast.GtE, ast.Gt: ast.Lt, ast.GtE: ast.LtE, ast.Eq: ast.Eq, ast.NotEq: ast.NotEq}
+            if type(e.ops[0]) in flip:
+                e = ast.Compare(left=e.comparators[0], ops=[flip[type(e.ops[0])]()], comparators=[e.left])
         if isinstance(e, ast.Compare) and len(e.ops) == 1 and isinstance(e.left, ast.Call) and q.is_call(e.left, "len") and e.left.args and q.unparse(e.left.args[0]) == base:
             c = e.comparators[0]
             if isinstance(c, ast.Constant) and type(c.value) is int:
@@ -218,6 +223,14 @@ def _len_guard(facts, base, need):
         if t == base and pol and need <= 1:
             return True
     return False
+
+
+def _parses(t):
+    try:
+        ast.parse(t, mode="eval")
+        return True
+    except SyntaxError:
+        return False
 
 
 def _is_match_obj(ck, fi, name):
@@ -264,6 +277,8 @@ def lint_total(ck, fi, extra_safe=()):
                 n += 1
                 ok = (isinstance(mx, ast.Constant) and mx.value == len(t.elts) - 1 and isinstance(sep, ast.Constant)
                       and any(pol and tt == "%s in %s" % (q.unparse(sep), recv) for tt, pol in F))
+                if not ok and isinstance(mx, ast.Constant) and any(_parses(t_) and recv in t_ and ("find(" in t_ or "count(" in t_ or "index(" in t_ or "partition(" in t_) for t_, _p in F):
+                    raise AnalysisError("C43.total: the split of %s in %s is guarded by an unrecognised test" % (recv, fi.qualname))
                 ck.ob("C43.total", fi, x, ok, "unpacking %s.split(%s, %s) into %d names needs a dominating '%s in %s' test (else ValueError)" % (recv, q.unparse(sep) if sep else "?", q.unparse(mx) if mx else "?", len(t.elts), q.unparse(sep) if sep else "?", recv))
             elif isinstance(t, (ast.Tuple, ast.List)) and isinstance(x.value, ast.Call) and q.call_attr(x.value) in ("partition", "rpartition"):
                 n += 1
@@ -303,6 +318,8 @@ def lint_total(ck, fi, extra_safe=()):
                 if not ok and idx == 0 and isinstance(x.value, ast.Name):
                     b = _unique_binding(fi, x.value.id)
                     ok = isinstance(b, ast.Call) and q.call_attr(b) in ("split", "rsplit", "partition", "rpartition")
+                if not ok and any(base in q.names_in(ast.parse(t_, mode="eval")) or base in t_ for t_, _p in F if not t_.startswith("@") and _parses(t_)):
+                    raise AnalysisError("C43.total: %s[%s] in %s is guarded by a test on %s that is not a recognised length guard" % (base, idx, fi.qualname, base))
                 ck.ob("C43.total", fi, x, ok, "%s[%s] needs a dominating length guard (len(%s) >= %d)" % (base, idx, base, need))
                 continue
             raise AnalysisError("C43.total: unmodelled subscript %s in %s" % (q.unparse(x), fi.qualname))
@@ -393,9 +410,10 @@ def rule_total(ck):
 
 
 def rule_ip(ck):
+    from ..x_resolve import lazy_widened, call_arg
     fi = ck.func(NU, "is_valid_ip")
     ip = fi.params()[0]
-    facts = must_facts(fi.cfg)
+    facts = lazy_widened(fi)
     gai = [(nd, c) for nd, c in fi.cfg.find(lambda x: isinstance(x, ast.Call) and q.call_attr(x) == "getaddrinfo")]
     ck.floor("C43.ip", len(gai), 1, "getaddrinfo calls in is_valid_ip")
     pm = q.parent_map(fi.node)
@@ -413,10 +431,11 @@ def rule_ip(ck):
             if isinstance(e, ast.Compare) and len(e.ops) == 1 and isinstance(e.ops[0], ast.In) and isinstance(e.left, ast.Constant) and e.left.value == "\x00" and q.dotted(e.comparators[0]) == ip:
                 nul = True
         ck.ob("C43.ip", fi, c, nul, "strings containing NUL are rejected before getaddrinfo (it truncates at NUL)")
-        flags = q.arg(c, 5, "flags")
+        flags = call_arg(ck.repo, fi, c, 5, "flags")
         flags = expand(fi, flags) if flags is not None else None
         ck.ob("C43.ip", fi, c, flags is not None and any(q.dotted(x) in ("socket.AI_NUMERICHOST", "AI_NUMERICHOST") for x in ast.walk(flags)), "getaddrinfo is given AI_NUMERICHOST (host names are not resolved, hence rejected)")
-        ck.ob("C43.ip", fi, c, c.args and q.dotted(c.args[0]) == ip, "the address checked is the argument itself")
+        host_ = call_arg(ck.repo, fi, c, 0, "host")
+        ck.ob("C43.ip", fi, c, host_ is not None and q.dotted(host_) == ip, "the address checked is the argument itself")
         for exc in ("socket.gaierror", "UnicodeError"):
             h = q.protected_by(pm, c, exc)
             ck.ob("C43.ip", fi, c, h is not None, "%s from getaddrinfo is handled (a non-address is rejected, not raised)" % exc, construct="getaddrinfo protected from %s" % exc)
@@ -491,7 +510,7 @@ def rule_misc(ck):
     pq = [c for c in q.calls(uc.node) if q.call_attr(c) in ("parse_qsl", "parse_qs")]
     ck.floor("C43.url-concat", len(pq), 1, "parse_qsl calls in url_concat")
     for c in pq:
-        kb = q.kwarg(c, "keep_blank_values")
+        kb = q.arg(c, 1, "keep_blank_values")
         ck.ob("C43.url-concat", uc, c, kb is not None and q.is_const(kb, True), "existing pairs with blank values are kept (keep_blank_values=True)")
     parsed = [a.targets[0].id for a in q.walk_body(uc.node) if isinstance(a, ast.Assign) and isinstance(a.value, ast.Call) and q.call_attr(a.value) in ("urlparse", "urlsplit") and isinstance(a.targets[0], ast.Name)]
     ck.need(len(parsed) == 1, "url_concat: parsed URL variable not identified")
@@ -581,9 +600,9 @@ def rule_misc(ck):
     fd = [c for c in q.calls(ft.node) if q.call_attr(c) == "formatdate"]
     ck.floor("C43.timestamp", len(fd), 1, "formatdate calls")
     for c in fd:
-        g = q.kwarg(c, "usegmt")
+        g = q.arg(c, 2, "usegmt")
         ck.ob("C43.timestamp", ft, c, g is not None and q.is_const(g, True), "HTTP dates are rendered with the literal 'GMT' zone (usegmt=True)")
-        lt = q.kwarg(c, "localtime")
+        lt = q.arg(c, 1, "localtime")
         ck.ob("C43.timestamp", ft, c, lt is None or q.is_const(lt, False), "HTTP dates are never rendered in local time")
     conv = [c for c in q.calls(ft.node) if q.dotted(c.func) in ("calendar.timegm", "time.mktime", "time.mktime") or q.call_attr(c) in ("timegm", "mktime", "timestamp")]
     ck.floor("C43.timestamp", len(conv), 2, "time-tuple conversions")
